@@ -26,6 +26,9 @@ GHOST static void wr_acq(int id, int t) {
   fmc_obs(id * 4 + 2 + t);
 }
 GHOST static void wr_rel(void) { g_writers--; }
+static int g_expect;  // increments of `data` performed under the write lock
+GHOST static void wrote(int n) { g_expect += n; }
+GHOST static int expected(void) { return g_expect; }
 
 static const char* scripts[][4] = {
     {"W", "R", ""},      // 0
@@ -96,12 +99,14 @@ static void* body(void* p) {
       data = data + 1;
       fiber_yield();
       data = data + 1;  // still inside after the yield (pre-emption point of -focus runs)
+      wrote(2);
       wr_rel();
       fiber_rwlock_wrunlock(&L);
     } else if (*s == 'W') {
       fiber_rwlock_wrlock(&L);
       wr_acq(id, 0);
       data = data + 1;
+      wrote(1);
       wr_rel();
       fiber_rwlock_wrunlock(&L);
     } else {
@@ -110,7 +115,7 @@ static void* body(void* p) {
       int ok = (*s == 'r' ? fiber_rwlock_tryrdlock(&L) : fiber_rwlock_trywrlock(&L)) == FIBER_SUCCESS;
       if (fmc_tid() != t || fmc_thread_switches(t) != sw) fmc_fail("rwlock: a try variant switched fibers (it must never block)");
       if (ok && *s == 'r') { rd_acq(id, 1); rd_rel(); fiber_rwlock_rdunlock(&L); }
-      if (ok && *s == 'w') { wr_acq(id, 1); data = data + 1; wr_rel(); fiber_rwlock_wrunlock(&L); }
+      if (ok && *s == 'w') { wr_acq(id, 1); data = data + 1; wrote(1); wr_rel(); fiber_rwlock_wrunlock(&L); }
     }
   }
   return 0;
@@ -152,6 +157,7 @@ int harness_main(void) {
     if (!get_f(i)) fmc_fail("rwlock harness: fiber %d was not created before fiber %d finished (script error)", i, i - 1);
     if (fiber_join(get_f(i), 0) != FIBER_SUCCESS) fmc_fail("rwlock harness: join failed");
   }
+  if (data != expected()) fmc_fail("rwlock: lost update: %d increments were made under the write lock but the protected variable is %d (a writer did not see its predecessor's writes)", expected(), data);
   if (L.state.blob != 0) fmc_fail("rwlock: lock word is %lx after everybody unlocked", (unsigned long)L.state.blob);
   if (L.read_waiters.head->next || L.write_waiters.head->next) fmc_fail("rwlock: a waiter list is not empty at the end");
   rt_finish();
